@@ -111,4 +111,22 @@ PROPS = {
                 "numWorkers >= 1 (enforced by New)"],
    trusted_base=["Iota/Model/Mine.lean (the transition system) is tied to the source by the regenerated synchronisation skeleton, capture and access lists (Tie/C13) and validated by trace replay",
                  "the Go race detector and runtime.NumGoroutine in the supporting run"]),
+ "C01": P("C01", tie="Iota.Tie.Ed",
+   rule="ops: ed.verify (verdict of pkg/ed25519.Verify; the harness also records crypto/ed25519's verdict and requires std-accept => accept). Honest signatures for messages of many lengths; every single-bit flip of signature and key (quick: a sample); "
+        "all 8x8 torsion shifts of A and of R built so that the cofactored equation holds, and one-sided shifts after signing; S + j*L for every j that fits 256 bits; wrong lengths; the 14 small-order / non-canonical encodings in all pairings as key and R with S = 0 and random S; "
+        "honest key with small-order R and vice versa; random bytes and non-points; a 31-byte key (panic). The Lean side runs the model over a from-scratch edwards25519 and SHA-512",
+   assumptions=["filippo.io/edwards25519 implements the group law, Point.SetBytes/Bytes and Equal of edwards25519 (hypothesis Lawful, Cofactor); crypto/sha512 is a function with 64-byte output"],
+   trusted_base=["Lean edwards25519 + SHA-512 in the driver (Iota/Model/Edwards.lean, Hash/SHA2.lean): the independent cofactored oracle, validated by agreement on every op",
+                 "filippo.io/edwards25519, crypto/sha512 (external, modelled by their contracts)"]),
+ "C07": P("C07", tie="Iota.Tie.Ed",
+   rule="ops: ed.keygen (NewKeyFromSeed, GenerateKey with a deterministic reader, Seed, Public; compared in the harness with crypto/ed25519.NewKeyFromSeed), ed.sign (signed twice; compared with crypto/ed25519.Sign on honest keys), ed.verify of each signature, "
+        "ed.signer (crypto.Signer with Hash(0) and with SHA-512/SHA-256 options). Random seeds x message lengths 0..300 covering 111/112/127/128-byte boundaries of both SHA-512 padding regimes; bad seed/key lengths (panics); a private key whose public half is foreign",
+   assumptions=["same as C01", "crypto/ed25519 is RFC 8032 (the reference the property names)"],
+   trusted_base=["crypto/ed25519 as comparison inside the harness", "Lean edwards25519 + SHA-512 in the driver as the second, independent RFC 8032 implementation"]),
+ "C18": P("C18", tie="Iota.Tie.Ed",
+   rule="ops: vrf.prove (proof bytes, Proof.Hash, ProofToHash), vrf.verify (verdict and hash), vrf.setbytes (decode then re-encode). Random seeds x alphas incl. empty and long, alphas found by search to need 2..5 try-and-increment rounds; each proof: wrong alpha, "
+        "every bit flip (quick: sample), s >= L, lengths 79/81, Gamma or key replaced by each non-canonical / small-order encoding; random 80-byte strings. The Lean side is an independent ECVRF-EDWARDS25519-SHA512-TAI over a from-scratch curve",
+   assumptions=["same as C01, plus: the base point has order L (OrderExact), L prime, Point.Bytes is canonical and canonical encodings are unique (EncodeCanonical, EncodeDecode)",
+                "uniqueness beyond the algebraic half is a random-oracle argument, not a theorem"],
+   trusted_base=["Lean ECVRF in the driver (Iota/Model/Vrf.lean over Iota/Model/Edwards.lean), validated on the RFC 9381 vectors by agreement with pkg/vrf"]),
 }
